@@ -293,6 +293,35 @@ def lorenz_mask(d, ctx):
     frac = d.choice([0.98, 0.9, 0.5, 0.7])
     weight = d.choice([0.999, 0.5])
     keepdims = sensor is not None and d.bool()
+    exact = False
+    if d.aux(181).integers(0, 4) == 0:
+        # integer magnitudes with phases 1, i, -1, -i: every power, partial sum
+        # and - for a dyadic fraction - every comparison of a cumulative share
+        # with the fraction is exact, in the library and here, so a share that
+        # equals the fraction is judged by the letter ("stays below") instead
+        # of being set aside as a rounding question
+        from fractions import Fraction
+        aux = d.aux(182)
+        mag = aux.integers(0, 5, size=shape) * (aux.uniform(size=shape) < 0.8)
+        x = (mag * (1j ** aux.integers(0, 4, size=shape))).astype(np.complex128)
+        kind, exact = 'exact-integers', True
+        pw = np.abs(x) ** 2
+        if sensor is not None:
+            pw = pw.sum(axis=sensor, keepdims=True)
+        fl = np.moveaxis(pw, axes, list(range(ndim - len(axes), ndim)))
+        fl = fl.reshape(-1, int(np.prod([shape[a] for a in axes])))
+        row = np.sort(fl[int(aux.integers(0, len(fl)))])[::-1]
+        tot = int(row.sum())
+        hits = []
+        for i in range(1, len(row) - 1):
+            if tot > 0:
+                f = Fraction(int(row[:i + 1].sum()), tot)
+                if f < 1 and f.denominator & (f.denominator - 1) == 0 and f.denominator <= 2 ** 20:
+                    hits.append(float(f))
+        if hits and aux.integers(0, 3) > 0:
+            frac = float(hits[int(aux.integers(0, len(hits)))])
+        else:
+            frac = float(aux.choice([0.5, 0.75, 0.875, 0.625, 0.78125]))
     kw = dict(axis=tuple(neg(d, a, ndim) for a in axes), lorenz_fraction=frac,
               weight=weight)
     if len(axes) == 1 and d.bool():
@@ -314,6 +343,18 @@ def lorenz_mask(d, ctx):
         v = flat[idx]
         s = np.sort(v)[::-1]
         total = math.fsum(s)
+        if exact:
+            from fractions import Fraction
+            if total <= 0 or Fraction(int(s[0]), int(total)) >= Fraction(frac):
+                raise Borderline('a single point carries the Lorenz fraction')
+            below = np.array([Fraction(int(s[:i + 1].sum()), int(total)) < Fraction(frac)
+                              for i in range(len(s))])
+            if np.any([Fraction(int(s[:i + 1].sum()), int(total)) == Fraction(frac)
+                       for i in range(len(s))]):
+                ctx.label('share-equals-the-fraction')
+            thr = s[below].min()
+            ref[idx] = np.where(v > thr, hi, lo)
+            continue
         if total <= 0 or s[0] >= frac * total * (1 - 1e-12):
             raise Borderline('a single point carries the Lorenz fraction')
         share = np.array([math.fsum(s[:i + 1]) / total for i in range(len(s))])
